@@ -6,6 +6,7 @@ package main
 import (
 	"bytes"
 	"encoding/json"
+	"errors"
 	"fmt"
 	"sort"
 
@@ -23,6 +24,32 @@ type saveCase struct {
 	J     int    `json:"then_advance_j,omitempty"`
 	Chain bool   `json:"chain,omitempty"`
 	Early *int   `json:"earlier_discarded_save_after,omitempty"` // a Save taken (and thrown away) at this earlier position
+	// EarlyFail: the earlier save goes to a writer that fails (1: rejects everything, 2: accepts 10 bytes and then
+	// fails); whatever Save does about it (panic, recovered here), later saves must be complete and current
+	EarlyFail int `json:"earlier_save_writer_fails,omitempty"`
+}
+
+type failingWriter struct{ accept int }
+
+func (w *failingWriter) Write(p []byte) (int, error) {
+	if len(p) <= w.accept {
+		w.accept -= len(p)
+		return len(p), nil
+	}
+	n := w.accept
+	w.accept = 0
+	return n, errors.New("injected write failure")
+}
+
+func earlyDesc(sc saveCase) string {
+	if sc.Early == nil {
+		return ""
+	}
+	d := fmt.Sprintf(", earlier discarded save after %d", *sc.Early)
+	if sc.EarlyFail > 0 {
+		d += " into a failing writer"
+	}
+	return d
 }
 
 func (sc saveCase) cfg() searchCfg {
@@ -96,7 +123,7 @@ func sameStrs(a, b []string) bool {
 func evalSave(sc saveCase, trace []string) *Failure {
 	n := sc.N
 	mk := func(cl, what string) *Failure {
-		return &Failure{Class: "search-save/" + cl, What: fmt.Sprintf("n=%d a=%d m=%d %s/%s save after %d (then advance %d, chain=%v): %s", n, sc.A, sc.M, sc.Pred, sc.Place, sc.K, sc.J, sc.Chain, what), Kind: "save", Replay: sc}
+		return &Failure{Class: "search-save/" + cl, What: fmt.Sprintf("n=%d a=%d m=%d %s/%s save after %d (then advance %d, chain=%v%s): %s", n, sc.A, sc.M, sc.Pred, sc.Place, sc.K, sc.J, sc.Chain, earlyDesc(sc), what), Kind: "save", Replay: sc}
 	}
 	var f *Failure
 	msg, pan := try(func() {
@@ -122,7 +149,14 @@ func evalSave(sc saveCase, trace []string) *Failure {
 			}
 			pre, _, _ := advance(orig, n, e)
 			var junk bytes.Buffer
-			orig.Save(&junk)
+			switch sc.EarlyFail {
+			case 0:
+				orig.Save(&junk)
+			case 1:
+				try(func() { orig.Save(&failingWriter{}) })
+			default:
+				try(func() { orig.Save(&failingWriter{accept: 10}) })
+			}
 			rest0, _, _ := advance(orig, n, k-e)
 			if sc.K == T+1 && e <= T {
 				// continue to exhaustion below
@@ -355,6 +389,13 @@ func runC04(c *Ctx) {
 					ee := e
 					sc.Early = &ee
 					jobs = append(jobs, job{sc, b.trace})
+					if e%3 == 0 || e == k {
+						for fw := 1; fw <= 2; fw++ {
+							sc2 := sc
+							sc2.EarlyFail = fw
+							jobs = append(jobs, job{sc2, b.trace})
+						}
+					}
 				}
 			}
 		}
@@ -397,6 +438,9 @@ func runC04(c *Ctx) {
 }
 
 func replayC04(kind string, raw json.RawMessage) *Failure {
+	if kind != "save" {
+		return unsupportedKind(kind)
+	}
 	var sc saveCase
 	if err := json.Unmarshal(raw, &sc); err != nil {
 		return &Failure{Class: "replay/bad-file", What: err.Error()}
